@@ -374,23 +374,23 @@ fn hijack_case(seed: u64, lane: Lane, trace: bool, victim: u8) -> CaseOut {
 pub fn run(ctx: &Ctx) -> i32 {
     let t = Instant::now();
     let mut rep = Report::default();
-    let g = Group { name: "migrate-null", cases: ctx.tier.pick(700, 60_000), budget_s: ctx.tier.pick(25.0, 900.0), exhaustive: false };
+    let g = Group { name: "migrate-null", cases: ctx.tier.pick(700, 60_000), budget_s: ctx.tier.pick(25.0, 240.0), exhaustive: false };
     run_group(ctx, &mut rep, &g, |_, seed, trace| migrate_case(seed, Lane::Null, trace));
     #[cfg(feature = "real")]
     {
-        let g = Group { name: "migrate-rustls", cases: ctx.tier.pick(100, 8000), budget_s: ctx.tier.pick(15.0, 500.0), exhaustive: false };
+        let g = Group { name: "migrate-rustls", cases: ctx.tier.pick(100, 8000), budget_s: ctx.tier.pick(15.0, 140.0), exhaustive: false };
         run_group(ctx, &mut rep, &g, |_, seed, trace| migrate_case(seed, Lane::Real, trace));
     }
-    let g = Group { name: "hijack-server", cases: ctx.tier.pick(700, 60_000), budget_s: ctx.tier.pick(20.0, 900.0), exhaustive: false };
+    let g = Group { name: "hijack-server", cases: ctx.tier.pick(700, 60_000), budget_s: ctx.tier.pick(20.0, 240.0), exhaustive: false };
     run_group(ctx, &mut rep, &g, |_, seed, trace| hijack_case(seed, Lane::Null, trace, 0));
     #[cfg(feature = "real")]
     {
-        let g = Group { name: "hijack-server-rustls", cases: ctx.tier.pick(100, 8000), budget_s: ctx.tier.pick(12.0, 500.0), exhaustive: false };
+        let g = Group { name: "hijack-server-rustls", cases: ctx.tier.pick(100, 8000), budget_s: ctx.tier.pick(12.0, 140.0), exhaustive: false };
         run_group(ctx, &mut rep, &g, |_, seed, trace| hijack_case(seed, Lane::Real, trace, 0));
     }
-    let g = Group { name: "ignore-client", cases: ctx.tier.pick(400, 30_000), budget_s: ctx.tier.pick(10.0, 400.0), exhaustive: false };
+    let g = Group { name: "ignore-client", cases: ctx.tier.pick(400, 30_000), budget_s: ctx.tier.pick(10.0, 110.0), exhaustive: false };
     run_group(ctx, &mut rep, &g, |_, seed, trace| hijack_case(seed, Lane::Null, trace, 1));
-    let g = Group { name: "ignore-fixed-server", cases: ctx.tier.pick(400, 30_000), budget_s: ctx.tier.pick(10.0, 400.0), exhaustive: false };
+    let g = Group { name: "ignore-fixed-server", cases: ctx.tier.pick(400, 30_000), budget_s: ctx.tier.pick(10.0, 110.0), exhaustive: false };
     run_group(ctx, &mut rep, &g, |_, seed, trace| hijack_case(seed, Lane::Null, trace, 2));
     finish(
         ctx,
